@@ -97,6 +97,14 @@ claim("C09", "sched",
       "trusted fake broker (commits durable when requested); <=4 messages; deviations <=1; redelivery demanded only when the group has a position and batches completed in order (as the statement allows)",
       "DESIGN.md §3 C09")
 
+claim("C20", "sched",
+      "bounded exhaustive enumeration of task-completion orders of the real DaskStream nodes against a fake client, local pipeline as reference",
+      "16 one-source and 6 two-source programs over map/starmap/accumulate(3 forms)/zip/union/buffer/partition/sliding_window between scatter() and gather(): every dependency-respecting order of task completions "
+      "interleaved with emits within the deviation bound; the recorder sequence must equal that of the same program built from local nodes and fed the same emits (prefix at every step, equal at the end); "
+      "input reference counters must end with the same counts, fire as often, and not earlier relative to deliveries than locally.",
+      "trusted fake Dask client (FIFO scatter/gather RPCs, explorer-driven task completion); producers await emit; <=4 elements; deviations <=1 quick / <=2 thorough; local references computed on a real background loop before exploration",
+      "DESIGN.md §3 C20")
+
 ALL = ["C%02d" % i for i in range(1, 21)]
 
 
